@@ -244,11 +244,11 @@ def judge_crossing(kind, shape):
 class C20(Check):
     pid = 'C20'
     level = 'model_checking'
-    rule = ('page-fault windows: all nested sequences of <=3 over {Internal, External, SharedCache real-fault records, the undecoded '
+    rule = ('page-fault windows: all nested sequences of <=3 (thorough <=4) over {Internal, External, SharedCache real-fault records, the undecoded '
             'Purgeable kind, unrelated decodable NONE, known-undecoded, unknown} x END result {0,1,5} x END fault type (all 11) with '
-            'one protection byte, plus all 256 protection bytes on a 1-record window; launch windows: all nested sequences of <=4 '
+            'one protection byte, plus all 256 protection bytes on a 1-record window; launch windows: all nested sequences of <=4 (thorough <=5) '
             'over {map_a@0x1000, map_a@0x2000 (two distinct), shared_cache_a@0x1800, shared_cache_a@0x2000, map_b, unrelated}; '
-            'sampler windows: every subset of flags {TH_INFO, KSTACK, USTACK, other} x all sequences of <=4 (quick) / <=5 '
+            'sampler windows: every subset of flags {TH_INFO, KSTACK, USTACK, other} x all sequences of <=4 (quick) / <=6 '
             '(thorough) over {THD_Data, UHdr, UData, UData, unrelated, other thread\'s UData} without repetition x header frame '
             'count {0,3,4,5,9}; PAIRS of sampler windows one after the other on the same thread and parser (3 x 7 x 4 x 7) - the second '
             'judged on its own window only; each composite with an unrelated call of the same thread nested in it, crossing its end, '
@@ -259,13 +259,14 @@ class C20(Check):
                    'launch list order among equal load addresses is not judged')
 
     def bounds(self):
-        return {'vmfault_nested_len': 3, 'launch_nested_len': 4, 'sampler_items': 4 if self.tier == 'quick' else 5}
+        q = self.tier == 'quick'
+        return {'vmfault_nested_len': 3 if q else 4, 'launch_nested_len': 4 if q else 5, 'sampler_items': 4 if q else 6}
 
     def shards(self):
-        out = [('vm', ch) for ch in chunked(list(seqs(NESTED_KINDS, 3)), 16)]
+        out = [('vm', ch) for ch in chunked(list(seqs(NESTED_KINDS, 3 if self.tier == 'quick' else 4)), 16 if self.tier == 'quick' else 64)]
         out.append(('vmprot',))
-        out += [('launch', ch) for ch in chunked(list(seqs(LAUNCH_KINDS, 4)), 16)]
-        L = 4 if self.tier == 'quick' else 5
+        out += [('launch', ch) for ch in chunked(list(seqs(LAUNCH_KINDS, 4 if self.tier == 'quick' else 5)), 16 if self.tier == 'quick' else 64)]
+        L = 4 if self.tier == 'quick' else 6
         perms = [p for n in range(L + 1) for p in itertools.permutations(SAMPLE_ITEMS, n)]
         out += [('sampler', ch) for ch in chunked(perms, 16)]
         out.append(('pairs',))
